@@ -754,7 +754,7 @@ inline void randomCase(Ctx& c, long idx)
 
 inline long count(Ctx& c)
 {
-    return 36 + 24 + 3 + 3 + 2 + (c.thorough() ? 3000000 : 12000);
+    return 36 + 24 + 3 + 3 + 2 + (c.thorough() ? 3000000 : 40000);
 }
 inline void run(Ctx& c, long idx)
 {
